@@ -239,6 +239,10 @@ def stepCase (prop : String) (st : St) (v : Verdict) (i : Nat) (opText obs : Str
     let v := if (obs.splitOn "+").length == 1 && obs != "" && obs != want then
                v.setViol s!"step={i} breaker state is {obs}, the last notification said {want}" else v
     (st, v)
+  | "m" =>
+    -- a rule loaded in the setup (C14: a throttling or isolation rule on the shared resource): throttling waits move the
+    -- virtual clock, so the activity no longer falls within one statistic bucket
+    ({ st with hasAdv := st.hasAdv || prop == "C14" }, v.addTag "rule-loaded")
   | "probe" =>
     if obs == "skipped-after-abort" then (st, v) else
     (st, if obs == "healthy" then v.addTag "probe-healthy" else v.setViol s!"step={i} after the concurrent calls a manager no longer works: {obs}")
